@@ -29,7 +29,7 @@ Notation parr := (parr R).
 Definition cfun (c : cop) (x y : R) : bool :=
   match c with CGt => y < x | CGe => y <= x | CLt => x < y | CLe => x <= y end.
 
-Definition cell (cs : seq (seq R)) (k i : nat) : R := nth 0 (nth [::] cs k) i.
+Notation cell := (@cell R).
 
 Definition cmp_cols (code : cmp_code) (order : seq nat) (ca cb : seq (seq R)) (m : nat) : seq bool :=
   let init := [seq (if cc_init code is Some c then cfun c (cell ca 0 i) (cell cb 0 i) else false)
